@@ -6,7 +6,8 @@ implementation and on the Lean model (`tab.run` / `tab.tensor`) from the *implem
 compared exactly (table, phase, iphase, n, outcomes, error class).
 Direct oracle (independent of the model): the tableau stays binary and symplectic, stabilizer i-phases stay 0, and for
 n <= 5 the stabilizer half equals the dense density-matrix obtained by applying the same operation (with the observed
-outcome) to the previous state; forced outcomes are honoured exactly when possible.
+outcome) to the previous state; forced outcomes are honoured exactly when possible — also inside a reset: a reset whose inner
+measurement is random must leave the other qubits in the branch of the forced (0/1) resp. drawn ("p", scripted) outcome.
 """
 import copy
 
@@ -167,6 +168,41 @@ def op_token(op):
 
 
 # ---------------------------------------------------------------------------------------------------------------- oracle
+RESETS = ("resetz", "resetx", "resety")
+
+
+def reset_branch(rho, n, op, o):
+    """dense reference for a reset whose inner Z measurement has outcome `o`: project on `o`, apply X iff `o` differs from the
+    intended state, then H (reset_x) / H then S (reset_y); None if the outcome has probability 0"""
+    k, q, intended = op[0], op[1], op[2]
+    r, p = tu.project(rho, n, q, o)
+    if p < 1e-9:
+        return None
+    r = r / p
+    if o != intended:
+        r = tu.conj(tu.op_on(n, q, tu.X), r)
+    if k == "resetx":
+        r = tu.conj(tu.op_on(n, q, tu.H), r)
+    if k == "resety":
+        r = tu.conj(tu.op_on(n, q, tu.S) @ tu.op_on(n, q, tu.H), r)
+    return r
+
+
+def matches(exp, got):
+    return exp is not None and any(e is not None and e.shape == got.shape and np.allclose(e, got, atol=1e-9) for e in exp)
+
+
+def wrong_state_key(op, rho, n, got):
+    """violation key of a dense-oracle mismatch; a reset that ends in the OTHER branch of its inner measurement (the state is a
+    legitimate post-measurement state, but not the one of the forced / drawn outcome) is reported as `wrong-branch`"""
+    if op[0] in RESETS and n == got.shape[0].bit_length() - 1:
+        if matches([reset_branch(rho, n, op, o) for o in (0, 1)], got):
+            return (f"state:{op[0]}:wrong-branch",
+                    f"{op[0]} on a qubit that is not in a Z eigenstate left the other qubits in the wrong branch of its inner "
+                    "measurement (not the branch of the forced / drawn outcome)")
+    return (f"state:{op[0]}:wrong-state", f"stabilizer half after {op[0]} is not the state obtained by applying it to the previous state")
+
+
 def dense_expected(rho, n, op, tab_after_n, observed):
     """apply `op` to the dense state; returns list of acceptable resulting density matrices (normalised), or None if the
     observed outcome was impossible / the forced outcome was not honoured"""
@@ -204,26 +240,16 @@ def dense_expected(rho, n, op, tab_after_n, observed):
             return None
         r, p = tu.project(rho, n, q, o)
         return [r / p]
-    if k in ("resetz", "resetx", "resety"):
-        q, intended = op[1], op[2]
-        # measure (any outcome), then put the qubit into the intended state
-        res = []
-        for o in (0, 1):
-            r, p = tu.project(rho, n, q, o)
-            if p < 1e-9:
-                continue
-            r = r / p
-            if o != intended:
-                r = tu.conj(tu.op_on(n, q, tu.X), r)
-            if k == "resetx":
-                r = tu.conj(tu.op_on(n, q, tu.H), r)
-            if k == "resety":
-                r = tu.conj(tu.op_on(n, q, tu.S) @ tu.op_on(n, q, tu.H), r)
-            res.append(r)
-        # a reset does not report its measurement outcome: when the outcome is random, either branch is a legitimate
-        # result of "measure in Z, then put the qubit into the intended state" (the code realises the branch
-        # outcome = intended); demanding a particular branch would be more than the property states
-        return res
+    if k in RESETS:
+        # reset_z = "measure in Z, then flip the qubit iff the outcome is not the intended state" — exactly: a deterministic
+        # inner measurement has its fixed outcome; a random one takes the forced outcome (0/1), resp. the drawn bit ("p":
+        # np.random.randint is scripted, so the drawn bit is op[4]); the qubits entangled with the reset qubit must be in
+        # the branch of THAT outcome (before the repair D50 the code always produced the branch outcome = intended)
+        q, det, sb = op[1], op[3], op[4]
+        _, p1 = tu.project(rho, n, q, 1)
+        is_random = 1e-9 < p1 < 1 - 1e-9
+        want = (1 if p1 > 0.5 else 0) if not is_random else outcome_bit(det, sb)
+        return [reset_branch(rho, n, op, want)]
     if k in ("insert", "add"):
         p = op[1] if k == "insert" else n
         return [tu.insert_ket0(rho, n, p)]
@@ -306,9 +332,9 @@ def one_walk(ctx, res, drv, rng, n0, steps, nmax, malformed_rate=0.03, dense_max
                 rho = tu.dense_rho(before)
                 exp = dense_expected(rho, n, op, tab.n_qubits, outs)
                 got = tu.dense_rho(tab)
-                if exp is None or not any(e.shape == got.shape and np.allclose(e, got, atol=1e-9) for e in exp):
-                    res.violation(f"state:{op[0]}:wrong-state", f"stabilizer half after {op[0]} is not the state obtained by applying it to the previous state",
-                                  input=inp, impl=tu.tab_args(tab), outs=str(outs))
+                if not matches(exp, got):
+                    key, clause = wrong_state_key(op, rho, n, got)
+                    res.violation(key, clause, input=inp, impl=tu.tab_args(tab), outs=str(outs))
             elif op[0] == "tensor" and n + op[1] <= dense_max + 1:
                 got = tu.dense_rho(tab)
                 exp = np.kron(tu.dense_rho(before), tu.dense_rho(extra))
@@ -426,9 +452,9 @@ def exhaustive_two_qubit(ctx, res, drv):
             rho = tu.dense_rho(before)
             exp = dense_expected(rho, 2, op, after.n_qubits, outs)
             got = tu.dense_rho(after)
-            if exp is None or not any(e.shape == got.shape and np.allclose(e, got, atol=1e-9) for e in exp):
-                res.violation(f"state:{op[0]}:wrong-state", f"stabilizer half after {op[0]} is not the state obtained by applying it to the previous state",
-                              input=inp, impl=tu.tab_args(after), outs=str(outs))
+            if not matches(exp, got):
+                key, clause = wrong_state_key(op, rho, 2, got)
+                res.violation(key, clause, input=inp, impl=tu.tab_args(after), outs=str(outs))
             lines.append(f"tab.run {tu.tab_args(before)} ops={op_token(op)}")
             checks.append((op, after, inp))
         reps = drv.batch(lines)
@@ -506,5 +532,16 @@ def replay(ctx, data):
     if n <= 5:
         exp = dense_expected(tu.dense_rho(before), n, op, after.n_qubits, outs)
         got = tu.dense_rho(after)
-        return exp is not None and any(e.shape == got.shape and np.allclose(e, got, atol=1e-9) for e in exp)
-    return None
+        if not matches(exp, got):
+            print("dense oracle:", wrong_state_key(op, tu.dense_rho(before), n, got)[0], "op", op, "state", inp["state"], "->", tu.tab_args(after))
+            return False
+    if op[0] == "tensor":
+        return True if n <= 5 else None
+    # any n: the signed stabilizer group must be the one of the verified model (Properties/C07: history_tracks_state)
+    drv = Driver()
+    rep = drv.batch([f"tab.run {tu.tab_args(before)} ops={op_token(op)}"])[0]
+    drv.close()
+    if rep["_status"] != "ok" or int(rep["n"]) != after.n_qubits or tu.canon_from_reply(rep) != tu.stab_canon(after):
+        print("differs from the verified model: op", op, "state", inp["state"], "-> impl", tu.tab_args(after), "model", rep["_raw"][:600])
+        return False
+    return True
